@@ -98,9 +98,22 @@ func H_custom() {
 	ncli := vChoice("ncli", 3)
 	var cli []string // the tokens the value must receive
 	var argv []string
+	withFold := vParamInt("fold") == 1
+	failedRun := false
+	usedFold := false
+	foldVal := ""
 	for i := 0; i < ncli; i++ {
 		if asOpt && isBool && vChoice("bare", 2) == 1 {
-			argv = append(argv, "-x")
+			if withFold && !usedFold && vChoice("folded", 2) == 1 {
+				// the flag folded in front of a valued option whose attached value may contain
+				// the flag's own letter: -xo<q>
+				usedFold = true
+				foldVal = vNondetString("foldval", 2)
+				vAssume(len(foldVal) > 0 && foldVal[0] != '-' && foldVal[0] != '=')
+				argv = append(argv, "-xo"+foldVal)
+			} else {
+				argv = append(argv, "-x")
+			}
 			cli = append(cli, "true")
 			continue
 		}
@@ -130,6 +143,16 @@ func H_custom() {
 		app.Spec = "[-x...]"
 		if vParamInt("group") == 1 {
 			app.Spec = "[OPTIONS]" // the same values through an option group
+		}
+		var other *string
+		if withFold {
+			other = app.String(StringOpt{Name: "o"})
+			app.Spec = "[-x...] [-o]"
+			defer func() {
+				if usedFold && !failedRun {
+					vAssert(*other == foldVal, "C19: a value attached to another option in the same fold was altered")
+				}
+			}()
 		}
 		if vParamInt("withArg") == 1 {
 			// a positional argument that always converts follows the option values
@@ -189,7 +212,8 @@ func H_custom() {
 	}
 	vObserve("log", rec.log)
 	vObserve("ran", ran)
-	vAssert(vEqStrs(rec.log, wantRun), "C19: Set/Clear calls at parse time differ from the protocol (exactly the bound tokens, in order; Clear once before them iff multi-valued)")
+	vAssert(vEqStrs(rec.log, wantRun), "C19/C02: Set/Clear calls at parse time differ from the protocol (exactly the bound tokens, in order; Clear once before them iff multi-valued)")
+	failedRun = failed
 	if failed {
 		vCover("set-failed")
 		vAssert(ran == 0 && err != nil, "C19: an error returned by Set must make the invocation a usage error")
